@@ -234,7 +234,7 @@ def check_trial(cfg, sch, f):
 # ------------------------------------------------------------------------------------------------
 # histories: connections arriving and finishing in several phases (the pool fills up, refuses, drains, shrinks, grows again)
 # ------------------------------------------------------------------------------------------------
-def run_history(cfg, ops, choices=None):
+def run_history(cfg, ops, choices=None, fail_starts=(), preempt=None):
     """ops: ["sub"] = a connection arrives (its job blocks until released) | ["rel", k] = the k-th still running job ends and the
     harness waits until its worker has been handed back.  Reference model: occupancy = jobs accepted and not yet ended; an
     arrival must be accepted iff occupancy < THREADPOOL_SIZE."""
@@ -243,7 +243,7 @@ def run_history(cfg, ops, choices=None):
     size, minsize = cfg["size"], cfg["minsize"]
     old_cfg = (config.THREADPOOL_SIZE, config.THREADPOOL_SIZE_MIN)
     config.THREADPOOL_SIZE, config.THREADPOOL_SIZE_MIN = size, minsize
-    sch = S.Sched(FILES, choices=choices, max_steps=20000)
+    sch = S.Sched(FILES, choices=choices, preempt=preempt, max_steps=20000)
     shim = types.SimpleNamespace(Event=lambda: S.SEvent(sch), Lock=lambda: S.SLock(sch), RLock=lambda: S.SRLock(sch),
                                  Thread=threading.Thread, current_thread=threading.current_thread)
     real_threading, real_time, real_worker = T.threading, T.time, T.Worker
@@ -252,6 +252,7 @@ def run_history(cfg, ops, choices=None):
     workers = []
     counter = itertools.count()
     f = {"ran": {}, "live": 0, "max_live": 0, "events": [], "error": None, "wrong": [], "overlap": False}
+    fail_starts = set(fail_starts)
 
     class W(real_worker):
         def __init__(self, pool):
@@ -265,8 +266,16 @@ def run_history(cfg, ops, choices=None):
             self._st = None
 
         def start(self):
+            if f.get("pool_ready"):
+                f["starts"] = f.get("starts", 0) + 1
+                if f["starts"] in fail_starts:
+                    # the operating system has no thread left for us right now
+                    f["start_failed_now"] = True
+                    raise RuntimeError("can't start new thread")
             f["live"] += 1
             f["max_live"] = max(f["max_live"], f["live"])
+            # the pool's own books at this moment (this worker included, wherever it is entered)
+            f["max_books"] = max(f.get("max_books", 0), len(self.pool.idle | self.pool.busy | {self}))
 
             def body():
                 try:
@@ -301,6 +310,7 @@ def run_history(cfg, ops, choices=None):
         except Exception as x:
             f["error"] = ("Pool()", x)
             return
+        f["pool_ready"] = True
         running = []      # accepted, not yet released
         n = 0
         for op in ops:
@@ -314,8 +324,14 @@ def run_history(cfg, ops, choices=None):
                 except T.NoFreeWorkersError:
                     accepted = False
                 except Exception as x:
+                    if f.pop("start_failed_now", False):
+                        # no thread could be started for this connection: it is not served (the caller sees the error); the pool's
+                        # books must still be right for everybody who comes later
+                        f["events"].append(("sub", i, occupancy, "start-failed"))
+                        continue
                     f["error"] = ("process", i, x)
                     break
+                f.pop("start_failed_now", None)
                 f["events"].append(("sub", i, occupancy, accepted))
                 if accepted and occupancy >= size:
                     f["wrong"].append("connection %d accepted while %d of %d workers were serving" % (i, occupancy, size))
@@ -374,14 +390,20 @@ def check_history(case, sch, f):
     twice = [i for i, n in f["ran"].items() if n > 1]
     if twice:
         viol("job-ran-twice", "jobs %r ran more than once" % twice)
-    never = [e[1] for e in f["events"] if e[0] == "sub" and e[3] and not f["ran"].get(e[1])]
+    never = [e[1] for e in f["events"] if e[0] == "sub" and e[3] is True and not f["ran"].get(e[1])]
     if never and not sch.deadlock:
         viol("accepted-job-never-ran", "connections %r were accepted but never served" % never)
-    ran_refused = [e[1] for e in f["events"] if e[0] == "sub" and not e[3] and f["ran"].get(e[1])]
+    ran_refused = [e[1] for e in f["events"] if e[0] == "sub" and e[3] is not True and f["ran"].get(e[1])]
     if ran_refused:
         viol("refused-job-ran", "connections %r were refused but served" % ran_refused)
     if f["max_live"] > case["cfg"]["size"]:
-        viol("too-many-workers", "%d worker threads alive at once, THREADPOOL_SIZE=%d" % (f["max_live"], case["cfg"]["size"]))
+        if f.get("max_books", 0) <= case["cfg"]["size"]:
+            # the pool's books never exceed the limit: the surplus is a worker that was retired (told to stop) and whose thread
+            # has not left its loop yet when the pool grows again
+            viol("too-many-workers:retired-worker-still-exiting", "%d worker threads alive at once, THREADPOOL_SIZE=%d (a retired worker has not "
+                 "exited yet when a new one is started)" % (f["max_live"], case["cfg"]["size"]))
+        else:
+            viol("too-many-workers", "%d worker threads alive at once, THREADPOOL_SIZE=%d" % (f["max_live"], case["cfg"]["size"]))
     if f["overlap"]:
         viol("idle-busy-overlap", "a worker is in the idle and the busy set at once")
     if not sch.deadlock and not all(f["workers_done"]):
@@ -394,7 +416,10 @@ def history_case(draw):
     size = draw(st.integers(1, 3))
     cfg = {"size": size, "minsize": draw(st.integers(1, size))}
     ops = draw(st.lists(st.one_of(st.just(["sub"]), st.just(["sub"]), st.tuples(st.just("rel"), st.integers(0, 3)).map(list)), min_size=2, max_size=16))
-    return {"layer": "history", "cfg": cfg, "ops": ops, "choices": draw(st.one_of(st.just([]), st.lists(st.integers(0, 3), max_size=60)))}
+    case = {"layer": "history", "cfg": cfg, "ops": ops, "choices": draw(st.one_of(st.just([]), st.lists(st.integers(0, 3), max_size=60)))}
+    if draw(st.integers(0, 3)) == 0:
+        case["fail_starts"] = sorted(set(draw(st.lists(st.integers(1, 4), min_size=1, max_size=2))))     # which thread starts (after the pool exists) fail
+    return case
 
 
 def history_catalogue():
@@ -410,6 +435,8 @@ def _history_labels(case):
     l = ["history", "size:%d" % case["cfg"]["size"], "default-schedule" if not case["choices"] else "random-schedule"]
     if case["cfg"]["minsize"] < case["cfg"]["size"]:
         l.append("pool-can-shrink")
+    if case.get("fail_starts"):
+        l.append("fault:thread-start-fails")
     return l
 
 
@@ -430,7 +457,8 @@ def run_case(case):
     if case.get("layer") == "live":
         return run_live(case)
     if case.get("layer") == "history":
-        sch, f = run_history(case["cfg"], case["ops"], case.get("choices") or None)
+        sch, f = run_history(case["cfg"], case["ops"], case.get("choices") or None, case.get("fail_starts") or (),
+                             preempt={int(k): v for k, v in case.get("preempt", {}).items()} or None)
         return check_history(case, sch, f)
     cfg = case["cfg"]
     sch, f = run_trial(cfg, preempt={int(k): v for k, v in case.get("preempt", {}).items()} or None, choices=case.get("choices"))
@@ -563,6 +591,23 @@ def run(ctx):
         if sh["index"] % 2 == 0:
             for case in history_catalogue():
                 ctx.observe(case, run_case(case), True, _history_labels(case) + ["catalogue"])
+        else:
+            # every single deviation from run-to-block for the short catalogue histories of pools that can shrink (a worker that is
+            # being retired is held back while the accept loop goes on submitting)
+            n = 0
+            for case in history_catalogue():
+                if case["cfg"]["minsize"] == case["cfg"]["size"] or (ctx.tier == "quick" and (case["cfg"]["size"] > 2 or len(case["ops"]) > 12)):
+                    continue
+
+                def run_with(preempt, case=case):
+                    sch, f = run_history(case["cfg"], case["ops"], None, (), preempt=preempt or None)
+                    sch._f = f
+                    return sch
+                for preempt, sch in S.enumerate_schedules(run_with, 1 if ctx.tier == "quick" else 2, limit=3000 if ctx.tier == "quick" else 60000):
+                    c2 = dict(case, preempt={str(k): v for k, v in preempt.items()})
+                    ctx.observe(c2, check_history(c2, sch, sch._f), sch.preempted_in_files > 0, _history_labels(case) + ["history-schedule-enumeration"])
+                    n += 1
+            ctx.notes["history_schedules_enumerated"] = n
         ctx.search(history_case(), run_case, ctx.n(400, 5000), nontrivial=_history_nontrivial, labels=_history_labels, name="poolhistory", max_rounds=4)
     elif sh.get("part") == "live":
         for size in (1, 2):
